@@ -191,12 +191,56 @@ package dkg
 //@ extern termsFromState(state) (t)
 //@   trusted field-by-field copy of the proposal terms out of a DBState (fresh object; identity named by termsOfState)
 //@   modifies nothing
-//@   ensures t == termsOfState(state)
+//@   ensures t == termsOfState(state) && t != nil
 
-//@ extern (*Process).verifyMessage(d, packet, proposal) (err)
-//@   trusted body verified separately (C09 clauses on verifyMessage / messageForSigning); here: the ghost fact it establishes
+// authOK(key, msg, sig): sig is a valid signature on msg under the public key encoded as `key` (scheme soundness assumed)
+//@ ghost authOK(bytes, bytes, bytes) bool
+//@ iface (github.com/drand/kyber/sign.Scheme).Verify(s, public, msg, sig) (err)
+//@   trusted kyber authentication scheme (BLS / Schnorr) verification
 //@   modifies nothing
-//@   ensures err == nil ==> msgVerified(packet, proposal)
+//@   ensures err == nil ==> authOK(pointVal(public), msg, sig)
+//@ iface (BeaconIdentifier).KeypairFor(b, beaconID) (kp, err)
+//@   trusted looks the node's own key pair up in the daemon; touches no DKG state
+//@   modifies nothing
+//@   ensures err == nil ==> kp != nil && kp.Public != nil && kp.Public.Scheme != nil
+
+//@ pred pbStr(p) := p != nil
+//@ pred lsWritten(b, tag, list, upto) := forall j int :: 0 <= j && j < upto && list[j] != nil ==> wrote(b, strBytes(tag + list[j].Address + "\nSig:")) && wrote(b, list[j].Signature)
+//@ pred lsCovered(r, tag, list) := forall j int :: 0 <= j && j < len(list) && list[j] != nil ==> covers(r, strBytes(tag + list[j].Address + "\nSig:")) && covers(r, list[j].Signature)
+//@ pred termsWritten(b, t) := wrote(b, strBytes(t.BeaconID + "\n")) && wrote(b, enc(2, 4, t.Epoch)) && (t.Leader != nil ==> wrote(b, strBytes("\nLeader:" + t.Leader.Address + "\n")) && wrote(b, t.Leader.Signature)) && wrote(b, enc(2, 4, t.Threshold)) && wrote(b, enc(2, 4, t.CatchupPeriodSeconds)) && wrote(b, enc(2, 4, t.BeaconPeriodSeconds)) && wrote(b, strBytes("\nScheme: " + t.SchemeID + "\n"))
+//@ pred subjectWritten(b, packet) := (typeis(packet.Packet, "*github.com/drand/drand/v2/protobuf/dkg.GossipPacket_Accept") && as(packet.Packet, "*github.com/drand/drand/v2/protobuf/dkg.GossipPacket_Accept").Accept != nil && as(packet.Packet, "*github.com/drand/drand/v2/protobuf/dkg.GossipPacket_Accept").Accept.Acceptor != nil ==> wrote(b, strBytes("Accepted:" + as(packet.Packet, "*github.com/drand/drand/v2/protobuf/dkg.GossipPacket_Accept").Accept.Acceptor.Address + "\n"))) \
+//@ \ && (typeis(packet.Packet, "*github.com/drand/drand/v2/protobuf/dkg.GossipPacket_Reject") && as(packet.Packet, "*github.com/drand/drand/v2/protobuf/dkg.GossipPacket_Reject").Reject != nil && as(packet.Packet, "*github.com/drand/drand/v2/protobuf/dkg.GossipPacket_Reject").Reject.Rejector != nil ==> wrote(b, strBytes("Rejected:" + as(packet.Packet, "*github.com/drand/drand/v2/protobuf/dkg.GossipPacket_Reject").Reject.Rejector.Address + "\n"))) \
+//@ \ && (typeis(packet.Packet, "*github.com/drand/drand/v2/protobuf/dkg.GossipPacket_Abort") && as(packet.Packet, "*github.com/drand/drand/v2/protobuf/dkg.GossipPacket_Abort").Abort != nil ==> wrote(b, strBytes("Aborted:" + as(packet.Packet, "*github.com/drand/drand/v2/protobuf/dkg.GossipPacket_Abort").Abort.Reason + "\n"))) \
+//@ \ && (typeis(packet.Packet, "*github.com/drand/drand/v2/protobuf/dkg.GossipPacket_Execute") ==> wrote(b, strBytes("Execute:"))) \
+//@ \ && (typeis(packet.Packet, "*github.com/drand/drand/v2/protobuf/dkg.GossipPacket_Proposal") ==> wrote(b, strBytes("Proposal:")))
+
+//@ func messageForSigning(beaconID, packet, proposal) (r)
+//@   props C09
+//@   requires packet != nil && proposal != nil
+//@   modifies nothing
+//@   loop 0: invariant [C09:joiners-are-signed-under-their-role] wrote(addr(ret), strBytes("beaconID:" + beaconID + "\n")) && subjectWritten(addr(ret), packet) && termsWritten(addr(ret), proposal) && lsWritten(addr(ret), "\nJoiner:", proposal.Joining, rangeindex + 1)
+//@   loop 1: invariant [C09:remainers-are-signed-under-their-role] wrote(addr(ret), strBytes("beaconID:" + beaconID + "\n")) && subjectWritten(addr(ret), packet) && termsWritten(addr(ret), proposal) && lsWritten(addr(ret), "\nJoiner:", proposal.Joining, len(proposal.Joining)) && lsWritten(addr(ret), "\nRemainer:", proposal.Remaining, rangeindex + 1)
+//@   loop 2: invariant [C09:leavers-are-signed-under-their-role] wrote(addr(ret), strBytes("beaconID:" + beaconID + "\n")) && subjectWritten(addr(ret), packet) && termsWritten(addr(ret), proposal) && lsWritten(addr(ret), "\nJoiner:", proposal.Joining, len(proposal.Joining)) && lsWritten(addr(ret), "\nRemainer:", proposal.Remaining, len(proposal.Remaining)) && lsWritten(addr(ret), "\nLeaver:", proposal.Leaving, rangeindex + 1)
+//@   call AsTime#1: assert [C09:timeout-term-enters-the-signed-message] arg0 == proposal.Timeout
+//@   call AsTime#2: assert [C09:genesis-time-term-enters-the-signed-message] arg0 == proposal.GenesisTime
+//@   ensures [C09:signed-message-names-beacon-packet-type-and-subject] covers(r, strBytes("beaconID:" + beaconID + "\n")) && (typeis(packet.Packet, "*github.com/drand/drand/v2/protobuf/dkg.GossipPacket_Accept") && as(packet.Packet, "*github.com/drand/drand/v2/protobuf/dkg.GossipPacket_Accept").Accept != nil && as(packet.Packet, "*github.com/drand/drand/v2/protobuf/dkg.GossipPacket_Accept").Accept.Acceptor != nil ==> covers(r, strBytes("Accepted:" + as(packet.Packet, "*github.com/drand/drand/v2/protobuf/dkg.GossipPacket_Accept").Accept.Acceptor.Address + "\n"))) && (typeis(packet.Packet, "*github.com/drand/drand/v2/protobuf/dkg.GossipPacket_Reject") && as(packet.Packet, "*github.com/drand/drand/v2/protobuf/dkg.GossipPacket_Reject").Reject != nil && as(packet.Packet, "*github.com/drand/drand/v2/protobuf/dkg.GossipPacket_Reject").Reject.Rejector != nil ==> covers(r, strBytes("Rejected:" + as(packet.Packet, "*github.com/drand/drand/v2/protobuf/dkg.GossipPacket_Reject").Reject.Rejector.Address + "\n"))) && (typeis(packet.Packet, "*github.com/drand/drand/v2/protobuf/dkg.GossipPacket_Execute") ==> covers(r, strBytes("Execute:"))) && (typeis(packet.Packet, "*github.com/drand/drand/v2/protobuf/dkg.GossipPacket_Proposal") ==> covers(r, strBytes("Proposal:")))
+//@   ensures [C09:signed-message-covers-the-scalar-terms] covers(r, strBytes(proposal.BeaconID + "\n")) && covers(r, enc(2, 4, proposal.Epoch)) && covers(r, enc(2, 4, proposal.Threshold)) && covers(r, enc(2, 4, proposal.CatchupPeriodSeconds)) && covers(r, enc(2, 4, proposal.BeaconPeriodSeconds)) && covers(r, strBytes("\nScheme: " + proposal.SchemeID + "\n")) && (proposal.Leader != nil ==> covers(r, strBytes("\nLeader:" + proposal.Leader.Address + "\n")) && covers(r, proposal.Leader.Signature))
+//@   ensures [C09:signed-message-covers-every-participant-under-its-role] lsCovered(r, "\nJoiner:", proposal.Joining) && lsCovered(r, "\nRemainer:", proposal.Remaining) && lsCovered(r, "\nLeaver:", proposal.Leaving)
+//@   ensures [C09:signed-message-covers-the-genesis-seed] covers(r, proposal.GenesisSeed)
+//@   ensures [C09:signed-message-covers-every-participant-key] (forall j int :: 0 <= j && j < len(proposal.Joining) && proposal.Joining[j] != nil ==> covers(r, proposal.Joining[j].Key)) && (forall j int :: 0 <= j && j < len(proposal.Remaining) && proposal.Remaining[j] != nil ==> covers(r, proposal.Remaining[j].Key)) && (forall j int :: 0 <= j && j < len(proposal.Leaving) && proposal.Leaving[j] != nil ==> covers(r, proposal.Leaving[j].Key))
+
+//@ func (*Process).verifyMessage(d, packet, proposal) (err)
+//@   props C09
+//@   requires packet != nil && proposal != nil
+//@   modifies nothing
+//@   loop 0: invariant [C09:sender-lookup-scans-remaining-and-joining] p == nil && -1 <= rangeindex && rangeindex < len(participants)
+//@   call messageForSigning#0: assert [C09:verified-message-is-built-from-this-packet-and-these-terms] arg1 == packet && arg2 == proposal && (packet.Metadata != nil ==> arg0 == packet.Metadata.BeaconID)
+//@   call Verify#0: assert [C09:signature-is-checked-against-the-named-senders-key] p != nil && pointVal(arg1) == p.Key
+//@   call Verify#0: assert [C09:signature-is-checked-over-the-signed-message] arg2 == msg
+//@   call Verify#0: assert [C09:checked-signature-is-the-packets-signature] packet.Metadata != nil ==> bytesEq(arg3, packet.Metadata.Signature)
+//@   ensures [C09:accepted-packet-is-signed-by-the-participant-it-names] err == nil ==> p != nil && (packet.Metadata != nil ==> p.Address == packet.Metadata.Address) && authOK(p.Key, msg, sig)
+//@   ensures [C09:named-sender-is-a-remaining-or-joining-participant-of-the-applied-terms] err == nil ==> (exists j int :: 0 <= j && j < len(proposal.Remaining) && proposal.Remaining[j] == p) || (exists j int :: 0 <= j && j < len(proposal.Joining) && proposal.Joining[j] == p)
+//@   defines [C09] err == nil ==> msgVerified(packet, proposal)
 
 //@ extern (*Process).identityForBeacon(d, beaconID) (me, err)
 //@   trusted reads the node's key pair through the BeaconIdentifier interface
@@ -281,6 +325,50 @@ package dkg
 //@   call SaveFinished#0: assert [C08:completion-moves-from-executing] arg2 == curOf(d.store, beaconID) && nSaves(d.store) == old(nSaves(d.store))
 //@   call SaveCurrent#0: assert [C08:failed-attempt-stays-in-the-current-bucket] arg2 != nil && arg2.State == Failed && finOf(d.store, beaconID) == old(finOf(d.store, beaconID))
 //@   ensures [C08:failed-attempt-keeps-last-completed-epoch] nSaves(d.store) == old(nSaves(d.store)) ==> finOf(d.store, beaconID) == old(finOf(d.store, beaconID))
+
+// ---- C08 / C09: a reshare proposal must name exactly the members of the current epoch, with their recorded keys ------
+//@ pred keyKept(q, p) := q != nil && p != nil && q.Address == p.Address ==> bytesEq(q.Key, p.Key)
+
+//@ func keysMatchLastEpoch(lastEpoch, participants) (ok)
+//@   props C09
+//@   modifies nothing
+//@   loop 0: invariant [C09:scanned-participants-keep-their-recorded-keys] -1 <= rangeindex0 && rangeindex0 < len(participants) && (forall i int, k int :: 0 <= i && i <= rangeindex0 && 0 <= k && k < len(lastEpoch) ==> keyKept(lastEpoch[k], participants[i]))
+//@   loop 1: invariant [C09:scanned-records-agree-with-this-participant] -1 <= rangeindex1 && rangeindex1 < len(lastEpoch) && (forall k int :: 0 <= k && k <= rangeindex1 ==> keyKept(lastEpoch[k], p))
+//@   ensures [C09:match-means-every-common-address-has-the-recorded-key] ok ==> (forall i int, k int :: 0 <= i && i < len(participants) && 0 <= k && k < len(lastEpoch) ==> keyKept(lastEpoch[k], participants[i]))
+
+//@ pred nodeRecorded(lep, nodes, upto) := forall i int :: 0 <= i && i < upto ==> lep[i] != nil && lep[i].Address == nodes[i].Identity.Addr && lep[i].Key == marshalOf(nodes[i].Identity.Key)
+//@ pred namesRecordedMembers(list, nodes) := forall j int :: 0 <= j && j < len(list) ==> (exists k int :: 0 <= k && k < len(nodes) && nodes[k].Identity.Addr == list[j].Address)
+//@ pred carriesRecordedKeys(list, nodes) := forall j int, k int :: 0 <= j && j < len(list) && 0 <= k && k < len(nodes) && list[j] != nil && list[j].Address == nodes[k].Identity.Addr ==> bytesEq(marshalOf(nodes[k].Identity.Key), list[j].Key)
+
+// everyMemberNamed: every node of the recorded group has its address at some position of remaining ++ leaving
+//@ pred everyMemberNamed(terms, nodes) := forall k int :: 0 <= k && k < len(nodes) ==> (exists m int :: 0 <= m && m < len(terms.Remaining) + len(terms.Leaving) && ite(m < len(terms.Remaining), terms.Remaining[m].Address, terms.Leaving[m - len(terms.Remaining)].Address) == nodes[k].Identity.Addr)
+//@ func validateReshareForRemainers(currentState, terms) (err)
+//@   props C08 C09
+//@   requires currentState != nil && terms != nil && currentState.FinalGroup != nil
+// the two participant lists of decoded terms are separate arrays (append(terms.Remaining, terms.Leaving...) may write
+// into the spare capacity of Remaining's array; with overlapping arrays that would change what Leaving shows)
+//@   requires len(terms.Leaving) > 0 ==> ref(terms.Remaining) != ref(terms.Leaving)
+//@   loop 0: invariant [C08,C09:node-scan-position-in-range] -1 <= rangeindex0 && rangeindex0 < len(currentState.FinalGroup.Nodes)
+//@   loop 0: invariant [C08,C09:last-epoch-list-is-new-and-sized-like-the-group] isnew(lastEpochParticipants) && len(lastEpochParticipants) == len(currentState.FinalGroup.Nodes)
+//@   loop 0: invariant [C08,C09:last-epoch-participants-mirror-the-recorded-group] nodeRecorded(lastEpochParticipants, currentState.FinalGroup.Nodes, rangeindex0 + 1)
+//@   call ContainsAll#0: assert [C08,C09:proposal-members-are-looked-up-in-the-recorded-group] arg0 == lastEpochParticipants && len(arg1) == len(terms.Remaining) + len(terms.Leaving) && (forall j int :: 0 <= j && j < len(terms.Remaining) ==> arg1[j] == terms.Remaining[j]) && (forall j int :: 0 <= j && j < len(terms.Leaving) ==> arg1[len(terms.Remaining) + j] == terms.Leaving[j])
+//@   call ContainsAll#1: assert [C08,C09:recorded-group-is-looked-up-in-the-proposal-members] arg1 == lastEpochParticipants && len(arg0) == len(terms.Remaining) + len(terms.Leaving) && (forall j int :: 0 <= j && j < len(terms.Remaining) ==> arg0[j] == terms.Remaining[j]) && (forall j int :: 0 <= j && j < len(terms.Leaving) ==> arg0[len(terms.Remaining) + j] == terms.Leaving[j])
+//@   call keysMatchLastEpoch#0: assert [C09:remaining-keys-are-compared-with-the-recorded-group] arg0 == lastEpochParticipants && arg1 == terms.Remaining
+//@   call keysMatchLastEpoch#1: assert [C09:leaving-keys-are-compared-with-the-recorded-group] arg0 == lastEpochParticipants && arg1 == terms.Leaving
+//@   call ContainsAll#0: assert [C08,C09:recorded-group-mirror-still-holds-at-the-first-lookup] nodeRecorded(lastEpochParticipants, currentState.FinalGroup.Nodes, len(currentState.FinalGroup.Nodes))
+//@   call ContainsAll#1: assert [C08,C09:recorded-group-mirror-still-holds-at-the-reverse-lookup] nodeRecorded(lastEpochParticipants, currentState.FinalGroup.Nodes, len(currentState.FinalGroup.Nodes))
+//@   call keysMatchLastEpoch#0: assert [C09:recorded-group-mirror-still-holds-at-the-remaining-key-check] nodeRecorded(lastEpochParticipants, currentState.FinalGroup.Nodes, len(currentState.FinalGroup.Nodes))
+//@   call keysMatchLastEpoch#1: assert [C09:recorded-group-mirror-still-holds-at-the-leaving-key-check] nodeRecorded(lastEpochParticipants, currentState.FinalGroup.Nodes, len(currentState.FinalGroup.Nodes))
+//@   call ContainsAll#0: after [C08,C09:successful-lookup-means-remaining-and-leaving-are-recorded-members] result ==> namesRecordedMembers(terms.Remaining, currentState.FinalGroup.Nodes) && namesRecordedMembers(terms.Leaving, currentState.FinalGroup.Nodes)
+//@   call ContainsAll#1: assert [C08,C09:positions-after-the-remaining-members-hold-the-leaving-members] forall m int :: len(terms.Remaining) <= m && m < len(arg0) ==> arg0[m] == terms.Leaving[m - len(terms.Remaining)]
+//@   call ContainsAll#1: assert [C08,C09:every-position-of-the-looked-up-list-is-a-remaining-or-leaving-member] forall m int :: 0 <= m && m < len(arg0) ==> arg0[m].Address == ite(m < len(terms.Remaining), terms.Remaining[m].Address, terms.Leaving[m - len(terms.Remaining)].Address)
+//@   call ContainsAll#1: after [C08,C09:successful-reverse-lookup-means-nobody-is-left-out] result ==> everyMemberNamed(terms, currentState.FinalGroup.Nodes)
+//@   call keysMatchLastEpoch#0: after [C09:matching-remaining-keys-are-the-recorded-keys] result ==> carriesRecordedKeys(terms.Remaining, currentState.FinalGroup.Nodes)
+//@   call keysMatchLastEpoch#1: after [C09:matching-leaving-keys-are-the-recorded-keys] result ==> carriesRecordedKeys(terms.Leaving, currentState.FinalGroup.Nodes)
+//@   ensures [C08,C09:remaining-and-leaving-members-exist-in-the-current-group] err == nil ==> namesRecordedMembers(terms.Remaining, currentState.FinalGroup.Nodes) && namesRecordedMembers(terms.Leaving, currentState.FinalGroup.Nodes)
+//@   ensures [C08,C09:every-member-of-the-current-group-is-remaining-or-leaving] err == nil ==> everyMemberNamed(terms, currentState.FinalGroup.Nodes)
+//@   ensures [C09:remaining-and-leaving-members-carry-the-keys-recorded-in-the-current-group] err == nil ==> carriesRecordedKeys(terms.Remaining, currentState.FinalGroup.Nodes) && carriesRecordedKeys(terms.Leaving, currentState.FinalGroup.Nodes)
+//@   ensures [C08:reshare-keeps-genesis-seed] err == nil ==> bytesEq(terms.GenesisSeed, currentState.GenesisSeed)
 
 // ---- C14: no DKG message can wedge the node -------------------------------------------
 
